@@ -119,6 +119,10 @@ class LivenessAnalysis(IRAnalysis):
                     assert isinstance(var, IRVariable)
                     phi_matching[i] = var
 
+        # variables live after the phis: a phi operand (of any edge) which is
+        # also used past the phis is live through the block on every edge
+        live_after_phis = self.inst_to_liveness[target.instructions[len(phis)]]
+
         result: OrderedSet[IRVariable] = OrderedSet()
         placed: set[int] = set()
 
@@ -129,6 +133,8 @@ class LivenessAnalysis(IRAnalysis):
                     placed.add(phi_idx)
                     result.add(phi_matching[phi_idx])
                 # else: skip subsequent operands of same phi
+                if var in live_after_phis:
+                    result.add(var)
             else:
                 result.add(var)
 
